@@ -16,6 +16,7 @@ pub mod c17;
 pub mod c18;
 pub mod c19;
 pub mod c20;
+pub mod matrix;
 
 pub struct PropDef {
     pub info: PropInfo,
